@@ -152,6 +152,12 @@ var richKeys = []string{
 	"lp/" + strings.Repeat("p", 210) + "-one", "lp/" + strings.Repeat("p", 210) + "-two",
 }
 
+var confusable = [][]string{
+	{"reports/2024", "reports_2024", "reports-2024", "reports\\2024", "reports%2F2024", "reports 2024", "reports+2024", "Reports/2024", "reports/2024 "},
+	{"a/b/c", "a\\b\\c", "a/b\\c", "a_b_c", "a\\b/c", "A/B/C"},
+	{"x.txt", "X.TXT", "x%2Etxt", "x.txt.", "x.txt ", "x_txt"},
+}
+
 // GenPlan generates the plan for one run of a property.
 func GenPlan(prop string, seed int64, tier string, guards map[string]bool) *Plan {
 	g := &G{rng: rand.New(rand.NewSource(seed)), seed: seed, tier: tier, guards: guards}
@@ -237,13 +243,27 @@ func (g *G) genC01(p *Plan) {
 	keys := append([]string{}, richKeys...)
 	g.rng.Shuffle(len(keys), func(i, j int) { keys[i], keys[j] = keys[j], keys[i] })
 	keys = keys[:g.n(1, 3)]
+	if g.chance(0.25) {
+		// keys that a normalising step (of separators, of case, of escapes)
+		// would take for one another: each is a key of its own
+		fam := confusable[g.rng.Intn(len(confusable))]
+		keys = append([]string{}, fam...)
+		g.rng.Shuffle(len(keys), func(i, j int) { keys[i], keys[j] = keys[j], keys[i] })
+		keys = keys[:g.n(2, 3)]
+	}
 	if c.IsFS() {
 		keys = prefixFree(keys)
 	}
 	var ops []Op
 	nput := g.n(1, 4)
+	if len(keys) > 1 && nput < len(keys) {
+		nput = len(keys)
+	}
 	for i := 0; i < nput; i++ {
 		k := keys[g.rng.Intn(len(keys))]
+		if i < len(keys) {
+			k = keys[i]
+		}
 		op := Op{K: "put", B: c.Buckets[0], Key: k, Body: g.body(g.size()), Meta: g.meta()}
 		switch r := g.rng.Intn(10); {
 		case r < 4:
